@@ -112,6 +112,23 @@ def harness(cond, sel, N, value_eq=False, count=False):
             v["one-result-per-satisfying-assignment" + sfx] = IMPLIES(
                 pre, AND([EQ(rows.count(c), SUM([B2I(t) for t, p in zip(truth, proj) if p == c])) for c in cands])
             )
+            if kind == "entity" and not value_eq and cond is not None and features(cond) & {"pred", "p2"} and not thec:
+                # the same query object evaluated again after the data changed: the predicates are called on the new data
+                for u in w.vars:
+                    if u in E.PVARS:
+                        for i, o in enumerate(w.dom[u]):
+                            o.a = ctx.fresh_int("%sa%d'" % (u, i))
+                try:
+                    rows2 = [(w.index(pv[0], r),) for r in q.evaluate()]
+                except Exception as e:
+                    ctx.observe("second evaluation raised %s" % type(e).__name__)
+                    v["no-exception-when-evaluated-again" + sfx] = False
+                    return v
+                truth2 = [w.truth(cond, a) for a in asg]
+                cands2 = sorted(set(proj) | set(rows2))
+                ctx.observe("again", rows2)
+                v["one-result-per-satisfying-assignment-after-the-data-changed" + sfx] = AND(
+                    [EQ(rows2.count(c), SUM([B2I(t) for t, p in zip(truth2, proj) if p == c])) for c in cands2])
         return v
 
     return h
